@@ -1,5 +1,7 @@
 import Xrl.Core.Proto
 import Xrl.Spec.Lookup
+import Xrl.Spec.Interp
+import Xrl.Spec.DataInv
 /-!
 # `spec.*` operations of the driver: the executable specifications in the `Float` reading
 
@@ -25,6 +27,16 @@ def dispatchSpec (T : Tables Float) (fn : String) (a : Array String) : Option St
   | "spec.ElectronConfig", 2 => some (fmtE (Spec.ElectronConfig T (pI a[0]!) (pI a[1]!)))
   | "spec.AugerRate", 2 => some (fmtE (Spec.AugerRate T (pI a[0]!) (pI a[1]!)))
   | "spec.AugerYield", 2 => some (fmtE (Spec.AugerYield T (pI a[0]!) (pI a[1]!)))
+  | "spec.CS_Photo", 2 => some (fmtE (Spec.CS_Photo T (pI a[0]!) (pF a[1]!)))
+  | "spec.CS_Rayl", 2 => some (fmtE (Spec.CS_Rayl T (pI a[0]!) (pF a[1]!)))
+  | "spec.CS_Compt", 2 => some (fmtE (Spec.CS_Compt T (pI a[0]!) (pF a[1]!)))
+  | "spec.CS_Energy", 2 => some (fmtE (Spec.CS_Energy T (pI a[0]!) (pF a[1]!)))
+  | "spec.Fi", 2 => some (fmtE (Spec.Fi T (pI a[0]!) (pF a[1]!)))
+  | "spec.Fii", 2 => some (fmtE (Spec.Fii T (pI a[0]!) (pF a[1]!)))
+  | "spec.FF_Rayl", 2 => some (fmtE (Spec.FF_Rayl T (pI a[0]!) (pF a[1]!)))
+  | "spec.SF_Compt", 2 => some (fmtE (Spec.SF_Compt T (pI a[0]!) (pF a[1]!)))
+  | "spec.ComptonProfile", 2 => some (fmtE (Spec.ComptonProfile T (pI a[0]!) (pF a[1]!)))
+  | "spec.shapeFailures", 0 => some ("shape " ++ toString ((Spec.shapeFailures T).map (fun p => p.1 ++ ":" ++ toString p.2)))
   | _, _ => none
 
 end Xrl
